@@ -111,14 +111,20 @@ def run_sequence(pystog, cfg, datasets):
     """add the datasets one by one; return the snapshots before/after each"""
     stog = pystog.StoG(**stog_kwargs(cfg))
     snaps = [snap(stog)]
+    cur = dict(cfg["mat"])
     for d in datasets:
+        for k_, v_ in (d.get("set_before") or {}).items():   # the instance's scattering lengths may change between datasets
+            setattr(stog, {"bcoh": "bcoh_sqrd", "btot": "btot_sqrd"}[k_], v_)
+            cur[k_] = v_
         stog.add_dataset(info_of(d))
-        snaps.append(snap(stog))
+        sn = snap(stog)
+        sn["mat"] = dict(cur)
+        snaps.append(sn)
     return stog, snaps
 
 
 def add_to_coq(cfg, d, pre, post):
-    m = cfg["mat"]
+    m = post.get("mat") or cfg["mat"]
     Y, X = d["Y"], d["X"]
     fl = [d["x"], d["y"], d["dy"] or []] + pre["recip"] + pre["sq"]
     sc = [d["Qmin"] or 0.0, d["Qmax"] or 0.0, (Y or {}).get("Scale", 0.0), (Y or {}).get("Offset", 0.0), (X or {}).get("Offset", 0.0),
